@@ -189,6 +189,10 @@ def _pairs(ctx, rng, plan, out, collect=None):
         kind = U.kind_of(name)
         small = kind in ("codon", "protein")
         base = U.rand_problem(rng, name, ntips=rng.randint(3, 5) if small else None, ncols=rng.randint(3, 8) if small else None)
+        if not base["mprobs"]:
+            # motif probabilities estimated from the alignment use a pseudocount, i.e. are a different *parameter value*
+            # after repeating columns; the relations are between runs with identical parameters
+            base["mprobs"] = U.rand_mprobs(rng, [str(m) for m in U.get_sm(name).get_alphabet()])
         try:
             lf0 = U.build_lf(base, rng)  # generates the rules
             l0 = float(lf0.lnL)
@@ -263,6 +267,7 @@ def spec_check(ctx, budget):
         "1-4 bins, scoped parameters; tolerance 1e-8*|lnL|; non-trivial = (model, problem, relation) that held"
     )
     rng = ctx.subrng(f"spec{budget}")
+    U.BIG_BINS = ctx.thorough
     if budget <= 1:
         plan = _plan(ctx, rng, 8, 2, 1, 1)
     else:
@@ -277,6 +282,7 @@ def correspondence(ctx):
         "and transformed (re-rooted incl. unary old roots, edge-split, child-reordered) problems; non-trivial = >= 2 unique columns"
     )
     rng = ctx.subrng("corr")
+    U.BIG_BINS = ctx.thorough
     rel = new_outcome()
     plan = _plan(ctx, rng, 60, 6, 4, 2) if ctx.thorough else _plan(ctx, rng, 6, 1, 1, 0)
     specs = []
